@@ -17,7 +17,7 @@ MUT_OPS = ["m_with_capacity", "m_from_slice", "drop", "m_split_off", "m_split_to
 def write_cfg(path, depth, handles, allocs, maxlen, ops, emit, sample_k, profile="release", parities=(0, 1), mutation="none",
               orig=(10, 17), invariants=("LawsAccept", "RcIsHandleCount", "AllFreed", "PromEndsAtEnd", "NoOverflow")):
     with open(path, "w") as f:
-        f.write("CONSTANTS\n  MAXW = 63\n  IMAXW = 31\n  ARENA = 256\n  W = 6\n")
+        f.write("CONSTANTS\n  MAXW = 127\n  IMAXW = 63\n  ARENA = 256\n  W = 7\n")     # W = 7: IMAXW is well above 2 * MaxBuf + MaxBuf (sums of in-range sizes never look unrepresentable)
         f.write('  Profile = "%s"\n  Parities = {%s}\n' % (profile, ",".join(str(p) for p in parities)))
         f.write("  MaxAllocs = %d\n  MaxHandles = %d\n  MaxLen = %d\n  Depth = %d\n" % (allocs, handles, maxlen, depth))
         f.write("  EmitPrograms = %s\n  SampleK = %d\n" % ("TRUE" if emit else "FALSE", sample_k))
